@@ -355,6 +355,10 @@ pub fn scan_forward(it: &mut DbIter) -> Result<Vec<(Vec<u8>, Vec<u8>)>, String> 
         }
         it.next();
     }
+    // an iterator that became invalid either ran off the end or failed
+    if let Some(e) = it.take_error() {
+        return Err(e.to_string());
+    }
     Ok(out)
 }
 
@@ -368,6 +372,9 @@ pub fn scan_backward(it: &mut DbIter) -> Result<Vec<(Vec<u8>, Vec<u8>)>, String>
             return Err("scan does not terminate".into());
         }
         it.prev();
+    }
+    if let Some(e) = it.take_error() {
+        return Err(e.to_string());
     }
     out.reverse();
     Ok(out)
